@@ -28,7 +28,7 @@ func runC19(c *Ctx, r *Report) {
 	r.Rule("C19.R1", "who may write bindings: stores into / deletes from Environment.store occur only in create, update, SetNoChecks, makeRef and Delete; create/update are called only from SetNoChecks; SetNoChecks is called only from CreateOrSet or with a constant name that is not a constant identifier")
 	r.Rule("C19.R2", "every path of CreateOrSet to SetNoChecks tests Constant(name), and once the name is found bound no path reaches SetNoChecks at all (it returns an Error or the existing value: an Equal value is not an identical one)")
 	r.Rule("C06.R1", "check precedes mutation: (shared with C06) in-place writes to the storage of a looked-up binding happen before any constant check, so a constant holding a large array or map is modified although an error is returned")
-	r.Rule("C05.R3", "(shared with C05) no object that may be a live *Register reaches a binding store without object.Value/CopyRegister")
+	r.Rule("C05.R3", "(shared with C05) no object that may be a live *Register reaches a binding store or container storage (which a constant can then be bound to) without object.Value/CopyRegister")
 	r.Rule("C19.R5", "object.Constant implements the documented predicate: evaluated on every ASCII character at the first and at a later position, evaluated (AST interpretation) on every ASCII name of length 1 and 2 and on representative names of length 3 and 4, it accepts exactly [A-Z][A-Z0-9_]*")
 	r.Rule("C19.R4", "register path: a register is bound to a name (setupRegister/MakeRegister) only where the name is known not to be a constant identifier")
 
@@ -316,18 +316,11 @@ func runC19(c *Ctx, r *Report) {
 			if _, ok := registerEscapeExceptions[ssaFuncName(f.Fn)+" | "+f.Desc]; ok {
 				continue
 			}
-			bind := false
-			for _, s := range f.Sinks {
-				if strings.Contains(s, "binding store") {
-					bind = true
-				}
-			}
-			if !bind {
-				continue
-			}
+			// (a binding store, or container storage: what is stored in an array or a map can be bound to a constant next,
+			// K = [10] + i)
 			nb++
 			r.Fail("C05.R3", ssaFuncName(f.Fn), f.Desc, c.Pos(instrPos(f.At)),
-				"an object that may be a *Register is bound to a name without object.Value: a constant bound this way (LIMIT := i) changes whenever the register slot is rewritten, with registers on only; reached: "+strings.Join(f.Sinks, "; "))
+				"an object that may be a *Register is bound to a name, or stored in a container that can be, without object.Value: a constant bound this way (LIMIT := i, K = [10] + i) changes whenever the register slot is rewritten, with registers on only; reached: "+strings.Join(f.Sinks, "; "))
 		}
 		if nb == 0 {
 			r.Ok("C05.R3", "eval", fmt.Sprintf("no binding store of a possibly-live register (%d sinks and storing call sites examined)", checked), "-")
